@@ -57,6 +57,8 @@ def single(md, t, h, depth):
         members = list(t)
         if h % 3 == 0:
             return t.try_value(90 + h % 7)        # enums are open: a number the enum does not define is a value too
+        if h % 7 == 1:
+            return t.try_value(-(3 + h % 5))      # ... a negative one as well, whether or not the enum declares negative numbers
         return members[h % len(members)]
     if md.proto_type == "message":
         if t is datetime:
